@@ -733,6 +733,63 @@ func buildTyped(tier string) *listStream {
 		s.add(setup+" (hashidx h "+sel+")", "", "typed:selector")
 		s.add(setup+" (set (hashidx h "+sel+") 1)", "", "typed:selector")
 	}
+	// (3b) multiple / destructuring assignment: every number of targets against every number of values,
+	// for every kind of value sequence and every front end that reaches AssignInstr / BindlistInstr
+	for nl := 0; nl <= 4; nl++ {
+		for nr := 0; nr <= 5; nr++ {
+			id := next()
+			var ts, vs []string
+			for i := 0; i < nl; i++ {
+				ts = append(ts, fmt.Sprintf("m%s_%d", id, i))
+			}
+			for i := 0; i < nr; i++ {
+				vs = append(vs, fmt.Sprintf("%d", 10+i))
+			}
+			tComma, tArr := strings.Join(ts, ", "), "["+strings.Join(ts, " ")+"]"
+			vComma, vArr := strings.Join(vs, ", "), "["+strings.Join(vs, " ")+"]"
+			symT := strings.TrimSpace(strings.Repeat("S ", nl))
+			shapeA := fmt.Sprintf("D A %s ; %d", symT, nr)
+			shapeB := fmt.Sprintf("D B %s ; %d", symT, nr)
+			fdef := "(defn g" + id + " [] " + vArr + ")"
+			// s-expression front ends: the quoted target array reaches AssignInstr as lhs *SexpArray
+			s.add("(set (quote "+tArr+") "+vArr+")", shapeA+" f1", "typed:multi-assign")
+			s.add("(def (quote "+tArr+") "+vArr+")", shapeA+" f2", "typed:multi-assign")
+			s.add("((quote "+tArr+") = "+vArr+")", "", "typed:multi-assign")
+			s.add(fdef+" (set (quote "+tArr+") (g"+id+"))", shapeA+" f4", "typed:multi-assign")
+			s.add("(defn w"+id+" [] (set (quote "+tArr+") "+vArr+")) (w"+id+")", shapeA+" f5", "typed:multi-assign")
+			s.add("(set (quote "+tArr+") (list "+strings.Join(vs, " ")+"))", "", "typed:multi-assign")
+			s.add("(set (quote "+tArr+") \"ab\")", "", "typed:multi-assign")
+			s.add("(set (quote "+tArr+") (hash a: 1))", "", "typed:multi-assign")
+			// mdef: BindlistInstr
+			if nl >= 1 {
+				s.add("(mdef "+strings.Join(ts, " ")+" (list "+strings.Join(vs, " ")+"))", shapeB+" f6", "typed:multi-assign")
+				s.add("(mdef "+strings.Join(ts, " ")+" (quote ("+strings.Join(vs, " ")+")))", shapeB+" f7", "typed:multi-assign")
+				s.add("(mdef "+strings.Join(ts, " ")+" "+vArr+")", "", "typed:multi-assign")
+				s.add("(defn w"+id+" [] (mdef "+strings.Join(ts, " ")+" (list "+strings.Join(vs, " ")+"))) (w"+id+")", shapeB+" f8", "typed:multi-assign")
+			}
+			// infix front ends (comma lists), also as a bare REPL line and with := and from a call result
+			if nl >= 1 {
+				for _, op := range []string{"=", ":="} {
+					if nr >= 1 {
+						s.add("{"+tComma+" "+op+" "+vComma+"}", "", "typed:multi-assign")
+						s.add(tComma+" "+op+" "+vComma, "", "typed:multi-assign")
+					}
+					s.add("{"+tComma+" "+op+" "+vArr+"}", "", "typed:multi-assign")
+					s.add(fdef+" {"+tComma+" "+op+" (g"+id+")}", "", "typed:multi-assign")
+					s.add(fdef+"\n"+tComma+" "+op+" (g"+id+")", "", "typed:multi-assign")
+					s.add("(defn w"+id+" [] {"+tComma+" "+op+" "+vComma+"}) (w"+id+")", "", "typed:multi-assign")
+				}
+			}
+			// a target that is no symbol
+			if nl >= 2 {
+				bad := append(append([]string{}, ts[:nl-1]...), "7")
+				s.add("(set (quote ["+strings.Join(bad, " ")+"]) "+vArr+")", fmt.Sprintf("D A %sX ; %d f9", strings.Repeat("S ", nl-1), nr), "typed:multi-assign")
+				s.add("{"+strings.Join(bad, ", ")+" = "+vComma+"}", "", "typed:multi-assign")
+				bad2 := append(append([]string{}, ts[:nl-1]...), "h.k")
+				s.add("(def h (hash k: 1)) {"+strings.Join(bad2, ", ")+" = "+vComma+"}", "", "typed:multi-assign")
+			}
+		}
+	}
 	// (4) typed variables assigned values of every kind
 	for _, ty := range []string{"int64", "string", "float64", "bool", "(* int64)", "[]int64", "error"} {
 		for _, v := range []string{"1", "\"s\"", "2.5", "true", "nil", "[1]", "(hash)", "(fn [] 1)"} {
